@@ -24,6 +24,8 @@ def gen(ctx):
     rng = ctx.rng
     for a in R.boundary_update_cases():
         yield Case("RUN", a, tags=("handle-limits",))
+    for a in R.declared_kind_value_cases():
+        yield Case("RUN", a, tags=("declared-kind-x-value",))
     for a in R.same_names_other_program_cases():
         yield Case("RUN", a, tags=("same-names-other-program",))
     for _ in range(40000 if ctx.thorough else 3000):
